@@ -53,7 +53,7 @@ def floors(tier):
     return {'evaluations': 10000, 'distinct_nontrivial': 1500, 'outside_targets_requested': 1500,
             'inside_reads_confirmed': 800, 'audit_open_events': 800, 'via_latex_to_text': 1000,
             'histkeys:escape_kind': 6, 'reused_object_calls': 2000, 'reconfigurations': 500,
-            'respelled_directory_reads': 5000, 'histkeys:converter_options': 4}
+            'respelled_directory_reads': 5000, 'nested_input_conversions': 300, 'histkeys:converter_options': 4}
 
 
 def setup(rec):
@@ -87,7 +87,14 @@ class Layout(object):
         os.makedirs(os.path.join(root, 'alt', b, 'sub'))
         for rel in ('alt/' + b + '/in.tex', 'alt/' + b + '/noext', 'alt/' + b + '/sub/deep.tex', 'alt/in.tex'):
             self.write(rel, 'ALT')
+        # inside files that themselves \\input other names: a nested request is resolved against the configured directory,
+        # whatever path the including file was reached through
+        self.write(os.path.join(b, 'nest.tex'), 'INSIDE', ' \\input{secret} \\input{out} \\include{deep/d} \\input{in}')
+        self.write(os.path.join(b, 'sub', 'nest2.tex'), 'INSIDE', ' \\input{sib} \\input{../in} \\input{deep}')
+        self.write('other/secret.tex', 'OUTSIDE')
         sl = os.symlink
+        sl(os.path.join(self.base, 'nest.tex'), os.path.join(root, 'other', 'back.tex'))    # outside name -> inside file
+        sl(os.path.join(self.base, 'sub', 'nest2.tex'), os.path.join(root, b + '2', 'back2.tex'))
         sl(os.path.join(root, 'other/out.tex'), os.path.join(self.base, 'lnk.tex'))        # file symlink -> outside
         sl(os.path.join(root, 'other'), os.path.join(self.base, 'lnkdir'))                 # dir symlink -> outside
         sl(os.path.join(self.base, 'in.tex'), os.path.join(self.base, 'lnkin.tex'))        # symlink inside -> inside
@@ -106,6 +113,9 @@ class Layout(object):
                            'lnk', 'lnk.tex', 'lnkdir', 'out', 'out.tex', 'lnkin', 'ext', 'ext2', 'rel', 'up', 'sib', 'chain', 'chain2',
                            'up2', 'self', 'v1.2', 'fig.1', 'a.b.c', 'dotlnk',
                            'sib.tex', b, b + '2', b + '-x', b + '.tex', 'other', 'secret', 'backin', 'tosub', 'd', '']
+        self.nested_names = ['nest', 'nest.tex', 'lnkdir/back', 'lnkdir/back.tex', os.path.join(root, 'other', 'back.tex'),
+                             'sub/nest2', 'sub/up/back2', 'sub/up/back2.tex', os.path.join(root, b + '2', 'back2'),
+                             '../other/back', 'sub/../nest']
         self.base_spellings = [self.base, self.base + '/', os.path.join(root, 'other', 'backin'),
                                os.path.join(root, b + '2', '..', b), os.path.join(self.base, 'sub', '..'),
                                # a directory symlink followed by '..': the real directory is the base although collapsing
@@ -113,12 +123,12 @@ class Layout(object):
                                os.path.join(root, 'other', 'tosub', '..'),
                                os.path.join(self.base, 'lnkdir', '..', b)]
 
-    def write(self, rel, kind):
+    def write(self, rel, kind, extra=''):
         self.counter += 1
         marker = '%sx%dx%s' % (kind, self.counter, 'qz')
         path = os.path.join(self.root, rel)
         with open(path, 'w') as f:
-            f.write(marker)
+            f.write(marker + extra)
         self.markers[os.path.realpath(path)] = marker
 
     def names(self, rng, depth3):
@@ -355,6 +365,17 @@ def run_shard(desc, rec):
                                               mech=err.split(' ')[0])
                 finally:
                     os.chdir(cwd)
+            # files that contain \\input themselves, converted (not just read) through every spelling of their name
+            for base in (lay.base, lay.base + '/', os.path.join(root, 'other', 'backin')):
+                for name in lay.nested_names:
+                    rec.case()
+                    rec.monitor('nested_input_conversions')
+                    err = evaluate(lay, base, name, 'l2t', rec)
+                    if err:
+                        case = {'layout_seed': lseed, 'base': base.replace(root, '<R>'), 'name': name.replace(root, '<R>'),
+                                'via': 'l2t', 'chdir': False}
+                        rec.violation(case, '%s | base %r name %r via l2t (file with nested \\input)' % (
+                            err, case['base'], case['name']), mech='nested:' + err.split(' ')[0])
             # one spelling whose meaning changes within the process: the relative name under another working
             # directory, and a directory symlink that is re-pointed between uses
             few = names[:len(lay.components)] + [rng.choice(names) for _ in range(150)] + names[-10:]
